@@ -20,7 +20,7 @@ REQUIRED = ["state_dict_roundtrip", "pickle_roundtrip", "deepcopy_roundtrip", "o
 ASSUMPTIONS = ["pickle/deepcopy of an object are compared with the original at 1e-9 (caches may be recomputed), state_dict round trip at 1e-7"]
 ANCHOR_FILES = ["gpytorch/module.py", "gpytorch/models/", "gpytorch/kernels/", "gpytorch/priors/", "gpytorch/constraints/", "gpytorch/variational/"]
 
-FAMS = ["default", "batch", "mt_kronecker", "ski", "ski_dynamic_grid", "sgpr", "svgp_whitened", "svgp_unwhitened", "svgp_meanfield", "svgp_batch_decoupled", "lmc_multitask", "priors", "rff", "natural", "svgp_fixed_inducing", "modellist"]
+FAMS = ["default", "batch", "mt_kronecker", "ski", "ski_dynamic_grid", "sgpr", "svgp_whitened", "svgp_unwhitened", "svgp_meanfield", "svgp_batch_decoupled", "lmc_multitask", "priors", "rff", "rff_lazy", "natural", "svgp_fixed_inducing", "modellist"]
 SAVE_OPS = ["pred", "pred_fpv", "train_step", "load_sd", "train_eval", "set_data", "pred_nodetach", "prior"]
 VAR_SAVE_OPS = ["pred", "pred_batch", "train_step", "load_sd", "train_eval", "prior"]
 VARF = {"svgp_fixed_inducing", "svgp_whitened", "svgp_unwhitened", "svgp_meanfield", "svgp_batch_decoupled", "lmc_multitask", "natural"}
@@ -88,6 +88,14 @@ def _extra_families():
         def kernel(self, lik):
             return gpytorch.kernels.ScaleKernel(gpytorch.kernels.RFFKernel(num_samples=6, num_dims=H.D))
 
+    class RFFLazy(H.Default):
+        """RFF kernel constructed without num_dims: its random weights exist only after the first evaluation - or a load"""
+
+        name = "rff_lazy"
+
+        def kernel(self, lik):
+            return gpytorch.kernels.ScaleKernel(gpytorch.kernels.RFFKernel(num_samples=6))
+
     class Natural(H.SVGP):
         name = "natural"
         dist = "NaturalVariationalDistribution"
@@ -115,7 +123,7 @@ def _extra_families():
             return m
 
     Priors.has_alt = True
-    return {c.name: c for c in (Priors, RFF, Natural, FixedZ)}
+    return {c.name: c for c in (Priors, RFF, RFFLazy, Natural, FixedZ)}
 
 
 _ST = {}
@@ -238,7 +246,9 @@ def run_case(case, ctx):
             buf = io.BytesIO()
             torch.save(sd, buf)
             buf.seek(0)
-            fr.load_state_dict(torch.load(buf, weights_only=False))
+            loaded = torch.load(buf, weights_only=False)
+            keep = {k_: v_.clone() for k_, v_ in loaded.items() if torch.is_tensor(v_)}
+            fr.load_state_dict(loaded)
             fr.eval()
             _compare(ctx, "state_dict_roundtrip", fam, orig2, _observe(fam, fr), (1e-7, 1e-7), **kw)
             fv, fg = _objective(fam, fr)
@@ -246,6 +256,22 @@ def run_case(case, ctx):
             for a, b in zip(og, fg):
                 if a is not None and b is not None:
                     ctx.close("objective_grad_roundtrip", b, a, (1e-6, 1e-6), cls="objective_grad:state_dict", mech="state_dict", **kw)
+            # the checkpoint stays what it was: loading it, then loading OTHER values into the same model and training it,
+            # leaves the dict the user holds untouched (a model must copy, not adopt, the tensors of a state dict)
+            try:
+                other = {k_: (v_ + 0.37 if torch.is_tensor(v_) and v_.dtype.is_floating_point and "constraint" not in k_ and "initialized" not in k_ and "updated" not in k_ else v_) for k_, v_ in copy.deepcopy(loaded).items()}
+                fr.load_state_dict(other)
+                with torch.no_grad():
+                    for p_ in fr.parameters():
+                        p_.add_(0.01)
+                same = all(torch.equal(loaded[k_], keep[k_]) for k_ in keep)
+                ctx.expect("checkpoint_not_modified_by_loading", same, "tensors of a state dict changed after it had been loaded (the model adopted them instead of copying)",
+                           keys=[k_ for k_ in keep if not torch.equal(loaded[k_], keep[k_])][:4], **kw)
+                fr.load_state_dict(loaded)
+                fr.eval()
+                _compare(ctx, "state_dict_roundtrip", fam, orig2, _observe(fam, fr), (1e-7, 1e-7), reload_after_other_checkpoint=True, **kw)
+            except Exception as e:
+                ctx.fail("state_dict_roundtrip", f"second / third load raised {type(e).__name__}: {str(e)[:140]}", "raise", exc=type(e).__name__, mech="state_dict", **kw)
             if case["family"] == "priors":
                 vals_m = {n: [getattr(p, a).detach().clone() for a in ("loc", "scale", "concentration", "rate") if hasattr(p, a)] for n, _, p, _, _ in m.named_priors()}
                 vals_f = {n: [getattr(p, a).detach().clone() for a in ("loc", "scale", "concentration", "rate") if hasattr(p, a)] for n, _, p, _, _ in fr.named_priors()}
